@@ -55,6 +55,7 @@ type blockFixture struct {
 	scripted                   bool                     // the directed first block has been generated
 	script                     []int                    // forced transaction kinds of the directed block
 	maxGas                     int64
+	forceGas                   uint64         // gas limit of the next burner call (a filler that leaves little block gas)
 	nonces                     map[int]uint64 // optimistic next nonce per wallet index
 	heavy                      bool
 	seqAtBegin, cosmosAdmitted map[int]uint64
@@ -193,6 +194,33 @@ type genTx struct {
 	prime  []byte // the same signed Ethereum payload wrapped honestly (From = its real signer): offered to CheckTx first
 }
 
+// appendCrossing: in a heavy block, a burner sized to leave only a little block gas, followed by an ordinary transaction whose gas
+// limit is well above what it uses: that transaction is the one that crosses the block gas limit — the consensus result then
+// holds the gas its execution really used while its sender paid for (and its receipt shows) the whole limit
+func (f *blockFixture) appendCrossing(rng *hx.Rng, priceFloor *big.Int, ws []*itutiltypes.TestAccount, txs []genTx, heavy bool, p *hx.Proto) []genTx {
+	if !heavy || f.maxGas <= 0 || len(f.script) > 0 || !rng.Chance(1, 2) {
+		return txs
+	}
+	sum := uint64(0)
+	for _, g := range txs {
+		if g.ethTx != nil {
+			sum += g.ethTx.Gas() // (an upper bound of what the transactions before consume)
+		}
+	}
+	delta := uint64(12_000 + rng.Intn(25_000))
+	if sum+delta+60_000 < uint64(f.maxGas) {
+		f.heavy, f.forceGas = true, uint64(f.maxGas)-sum-delta
+		f.script = []int{48}
+		txs = append(txs, f.genTx(rng, priceFloor, ws))
+	}
+	f.heavy, f.forceGas = false, 0
+	f.script = []int{hx.Pick(rng, []int{35, 35, 25, 16})} // storer (limit 300 000), logger, transfer to a fresh address
+	txs = append(txs, f.genTx(rng, priceFloor, ws))
+	f.script = nil
+	p.Count("block:crossing-pair")
+	return txs
+}
+
 // records of the verif-tag refund hook, in execution order: {gasUsedBeforeRefund, counter, applied, remaining}
 var hookRecs [][4]uint64
 
@@ -281,6 +309,7 @@ func runBlocks(t *testing.T, f *blockFixture, rng *hx.Rng, p *hx.Proto, nTx int)
 				txs = append(txs, r)
 			}
 		}
+		txs = f.appendCrossing(rng, priceFloor, ws, txs, heavy, p)
 		raw := make([][]byte, len(txs))
 		for i, g := range txs {
 			raw[i] = g.bytes
@@ -627,6 +656,9 @@ func (f *blockFixture) genTx(rng *hx.Rng, baseFee *big.Int, ws []*itutiltypes.Te
 		a.gas = 60_000 + uint64(rng.Intn(1_200_000))
 		if f.heavy {
 			a.gas = uint64(f.maxGas)/4 + uint64(rng.Intn(int(f.maxGas)/3))
+		}
+		if f.forceGas > 0 {
+			a.gas, f.forceGas = f.forceGas, 0
 		}
 		g.kind = "burner"
 	case kind < 58:
